@@ -1179,6 +1179,8 @@ package iavl
 //@   callsite Batch).Set@1 [empty-tree-marker] len(i.stack) == 0 && arg1 != nil && len(arg1) == 0
 //@   callsite Importer).writeNode [root-gets-nonce-one] len(i.stack) == 1 && arg1 == i.stack[0] && i.stack[0].nodeKey.nonce == 1
 //@   callsite Batch).Set@2 [reference-root-only-for-older-root] len(i.stack) == 1 && i.stack[0].nodeKey.version < i.version
+//@   callsite Batch).WriteSync [root-written-after-the-batch-in-flight-settled] i.inflightCommit == nil
+//@   ensures [one-final-write] err == nil ==> calls("Batch).WriteSync") == 1
 //@   modifies *
 
 // ---------------------------------------------------------------- unsaved_fast_iterator.go: which uncommitted additions take part in an iteration, and in which order (C08/C07)
